@@ -105,7 +105,7 @@ def gen_opts(r, which, fmt, data):
 
 def gen_cli_cases(ctx, which):
     r = ctx.rng
-    n_cases = 70 if not ctx.thorough else 1500
+    n_cases = 160 if not ctx.thorough else 3000
     # corpus: F9 (t_start 0 with stamps straddling zero), offset signs, crop on the reference only
     data = gen_traj_pair(r, 10, "tum", -0.5, 0.0)
     yield {"kind": "cli", "which": which, "fmt": "tum", "data": data, "off": None,
@@ -246,8 +246,9 @@ def opt_float(tok):
     return None if tok == "-" else float(core.parse_rat(tok))
 
 
-def apply_steps(steps, ref, est, stop_before_metric=False):
-    """interpret a list of steps ([name, args…], rationals as p/q text or floats) with evo's core API"""
+def apply_steps(steps, ref, est, stop_before_metric=False, capture=None):
+    """interpret a list of steps ([name, args…], rationals as p/q text or floats) with evo's core API;
+    `capture` (a dict) receives the poses the metric step sees"""
     from evo.core import sync, metrics
     from evo.core.trajectory import Plane
     from evo.core.units import Unit
@@ -281,12 +282,19 @@ def apply_steps(steps, ref, est, stop_before_metric=False):
             elif op == "ape":
                 if stop_before_metric:
                     return ref, est, None
+                if capture is not None:
+                    capture["ref"], capture["est"] = mc.seen_poses(ref), mc.seen_poses(est)
                 metric = metrics.APE(mc.pose_relation(st[1]))
                 metric.process_data((ref, est))
             elif op == "rpe":
                 if stop_before_metric:
                     return ref, est, None
                 unit = {"f": Unit.frames, "m": Unit.meters, "r": Unit.radians, "d": Unit.degrees}[st[3]]
+                if capture is not None:
+                    capture["ref"], capture["est"] = mc.seen_poses(ref), mc.seen_poses(est)
+                    capture["driving"] = ref if st[6] in ("1", True) else est
+                    capture["pc"] = {"delta": num(st[2]), "unit": st[3], "tol": num(st[4]), "all_pairs": st[5] in ("1", True)}
+                    capture["driving"] = copy.deepcopy(capture["driving"])
                 metric = metrics.RPE(mc.pose_relation(st[1]), num(st[2]), unit, num(st[4]), st[5] in ("1", True),
                                      st[6] in ("1", True))
                 metric.process_data((ref, est))
@@ -431,35 +439,102 @@ def traj_text(traj):
 
 
 def evaluate(ctx, cases, which):
-    from evo import EvoException
     if not cases:
         return
+    prop = "C01" if which == "ape" else "C02"
     impls = []
     try:
         for c in cases:
             impls.append(run_cli(c))
-        plans = core.run_driver([im["plan_line"] for im in impls], "C01" if which == "ape" else "C02")
-        for case, impl, plan in zip(cases, impls, plans):
-            judge(ctx, case, impl, plan, which)
+        plans = core.run_driver([im["plan_line"] for im in impls], prop)
+        runs = [interpret(case, impl, plan) for case, impl, plan in zip(cases, impls, plans)]
+        # the interpreted metric step against the model core on the processed trajectories
+        lines, idx = [], []
+        for k, (case, run) in enumerate(zip(cases, runs)):
+            cap = run.get("capture")
+            if run["exc"] is None and cap and "ref" in cap and len(cap["ref"]) == len(cap["est"]):
+                rel = case["opts"]["pose_relation"]
+                if which == "ape":
+                    lines.append(f"C01 ape {rel} {mc.poselist(cap['ref'])} {mc.poselist(cap['est'])}")
+                else:
+                    from props import C02 as P2
+                    pairs = P2.evo_pairs(cap["pc"], cap["driving"])
+                    if pairs is None:
+                        continue
+                    run["pairs"] = pairs
+                    lines.append(f"C02 rpe {rel} {P2.pairlist(pairs)} {mc.poselist(cap['ref'])} {mc.poselist(cap['est'])}")
+                idx.append(k)
+        outs = core.run_driver(lines, prop) if lines else []
+        for k, o in zip(idx, outs):
+            runs[k]["model_metric"] = o
+        for case, impl, plan, run in zip(cases, impls, plans, runs):
+            judge(ctx, case, impl, plan, run, which)
     finally:
         for im in impls:
             shutil.rmtree(im.get("dir", ""), ignore_errors=True)
 
 
-def judge(ctx, case, impl, plan, which):
+def interpret(case, impl, plan):
+    """the Lean plan, interpreted with evo's core API on fresh copies of the two files"""
     from evo import EvoException
-    # ---- correspondence: the Lean plan, interpreted, must reproduce the CLI bit for bit
-    m_exc, ref, est, metric = None, None, None, None
+    run = {"exc": None, "ref": None, "est": None, "metric": None, "capture": {}}
     if plan == "E_FILTER":
-        m_exc = "FilterException"
+        run["exc"] = "FilterException"
     elif plan == "BAD-OP":
         raise core.ToolError("driver rejected " + impl["plan_line"])
     else:
         try:
             ref, est = load_fresh(case, impl["dir"])
-            ref, est, metric = apply_steps(parse_plan(plan), ref, est)
+            run["ref"], run["est"], run["metric"] = apply_steps(parse_plan(plan), ref, est, capture=run["capture"])
         except EvoException as e:
-            m_exc = type(e).__name__
+            run["exc"] = type(e).__name__
+    return run
+
+
+def compare_with_model_core(ctx, case, run, which):
+    """values of the interpreted metric step = the model's cores on the processed trajectories"""
+    from props import C02 as P2
+    o = run.get("model_metric")
+    if o is None:
+        return
+    rel = case["opts"]["pose_relation"]
+    fac = unit_factor(rel, case["opts"].get("change_unit"))
+    vals = [float(v) for v in np.asarray(run["metric"].error).reshape(-1)]
+    if not o.startswith("OK"):
+        ctx.mismatch(case, f"model refuses the metric step of the interpreted plan ({o}) but evo computed values", len(vals), o)
+        return
+    cap = run["capture"]
+    pim = {"seen_ref": cap["ref"], "seen_est": cap["est"]}
+    if which == "ape":
+        toks = o.split()[1:]
+        where = [(k, k) for k in range(len(toks))]
+    else:
+        head, _, tail = o.partition("|")
+        ids = [int(x) for x in head.split()[2:]]
+        toks = tail.split()
+        if ids != [int(j) for j in run["metric"].delta_ids]:
+            ctx.mismatch(case, "delta_ids of the interpreted plan differ from the model", list(run["metric"].delta_ids)[:10], ids[:10])
+            return
+        kept = run["pairs"]
+        if rel == "point_distance_error_ratio":
+            kept = [p for p, keep in zip(kept, P2.kept_mask(pim, kept)) if keep]
+        where = kept
+    if len(toks) != len(vals) or fac is None:
+        ctx.mismatch(case, "number of values of the interpreted plan differs from the model", len(vals), len(toks))
+        return
+    for k, (v, tok) in enumerate(zip(vals, toks)):
+        mv = mc.value_of_core(tok)
+        i, j = where[k]
+        if not abs(v - mv * fac) <= P2.pair_tol(rel, pim, i, j, mv) * abs(fac) * 2:
+            ctx.mismatch(case, f"value {k} of evo_{which} differs from the model core on the processed trajectories ({rel})",
+                         v, mv * fac)
+            return
+    ctx.count("branch", "cli-values-vs-model-core")
+
+
+def judge(ctx, case, impl, plan, run, which):
+    # ---- correspondence: the Lean plan, interpreted, must reproduce the CLI bit for bit
+    m_exc, ref, est, metric = run["exc"], run["ref"], run["est"], run["metric"]
     if m_exc is not None or impl["exc"] is not None:
         if m_exc != impl["exc"]:
             ctx.mismatch(case, f"evo_{which} outcome differs from the interpreted plan", impl["exc"] or "stored a result",
@@ -481,6 +556,7 @@ def judge(ctx, case, impl, plan, which):
                     ctx.mismatch(case, f"{name} trajectory stored by evo_{which} differs from the interpreted plan", None, None)
         for st in parse_plan(plan):
             ctx.count("branch", "step:" + st[0] + (":" + st[1] if st[0] == "align" else ""))
+        compare_with_model_core(ctx, case, run, which)
     # ---- oracle
     cli_oracle(ctx, case, impl, which)
     # ---- bookkeeping
